@@ -219,6 +219,12 @@ pub fn app_name(inv: bool) -> BS<String> {
         prop_oneof![
             6 => ascii,
             1 => vec(0x20u8..0x7f, 5..=7).prop_map(|v| String::from_utf8(v).unwrap()),
+            // longer than the field only because of trailing NULs (a C string with its terminator), or with any 7-bit bytes
+            1 => (vec(0x20u8..0x7f, 1..=4), 1usize..=4).prop_map(|(mut v, k)| {
+                v.extend(std::iter::repeat(0u8).take(k));
+                String::from_utf8(v).unwrap()
+            }),
+            1 => vec(0u8..0x80, 5..=8).prop_map(|v| String::from_utf8(v).unwrap()),
             1 => select(vec!["é", "aé", "€", "abé", "naïv", "😀", "ab\u{80}"]).prop_map(|s| s.to_string()),
         ]
         .boxed()
